@@ -9,7 +9,8 @@ CLAIMS = {
              "values in handlers and rejections, propagation of bool failure results, handle/result ownership (no overwrite of a live handle, "
              "delete-then-null, single release after the throwing call, delete as the allocated C++ type), parameter/result forwarding. "
              "All wrappers, all paths. Also: no member function a wrapper forwards to dereferences a per-dimension array that some populating "
-             "operation leaves null without testing it (NL-1; a crash is not a non-zero return). Does not decide numerical equality of results "
+             "operation leaves null without testing it (NL-1; a crash is not a non-zero return); a FITS handle opened by a refused or failed read "
+             "is closed on every path (RH-1); the fitter's own status results are examined (ED-4). Does not decide numerical equality of results "
              "beyond forwarding, nor leak-freedom inside the C fitter beyond rule TS-5C.",
         note=TRUST + "Forwarding table (wrapper -> member, argument order) was derived from today's wrapper and is frozen in psv/rules/cw.py.",
         technique="custom AST/CFG lints: exception-effect summary + try containment, must-dataflow on handle state, forwarding table"),
@@ -25,7 +26,7 @@ CLAIMS = {
         text="Decides the monitor discipline of the coordinator/worker hand-shake (walk_descents / evaluate_descent): lockset on the protected "
              "state, wait predicate re-tested under the mutex before every wait (no lost wake-up), broadcast after every state store before "
              "release, hand-off phases for worker-owned fields, thread lifecycle, ascending first-success selection, read-only use of objects "
-             "shared by all workers. Disjunctive dataflow, all CFG paths, path-sensitive on constant locals. Does not decide equality of results "
+             "shared by all workers, per-job accumulators of the worker reset inside the job loop. Disjunctive dataflow, all CFG paths, path-sensitive on constant locals. Does not decide equality of results "
              "across worker counts (argued only) nor races inside CHOLMOD.",
         note=TRUST + "POSIX condition-variable semantics; one mutex and one condition variable shared via trial 0 (checked).",
         technique="lockset / typestate dataflow over clang CFGs of the C fitter, shared-object effect table"),
@@ -36,7 +37,7 @@ CLAIMS = {
              "known empty; clear()/move construction/move assignment cover every member with matching counts and leave the source empty; "
              "local new/malloc results are owned, returned or released on all exits; per-dimension arrays that a populating operation may leave null "
              "are dereferenced only under a null test (invariant computed from the populating operations), and count arrays are allocated before "
-             "the arrays they size. All CFG paths of all mutators. Does not decide "
+             "the arrays they size; an opened FITS handle is never abandoned; convolve refuses invalid arguments before any use. All CFG paths of all mutators. Does not decide "
              "behaviour over operation sequences against an abstract model, nor fancy-pointer allocators.",
         note=TRUST + "Exceptions arise only where the effect summary says (throw, operator new, calls to raising functions); deallocate does not raise.",
         technique="typestate / exception-safety dataflow over clang CFGs of instantiated templates; field-coverage and count-agreement checks"),
@@ -45,14 +46,16 @@ CLAIMS = {
              "condition equals the required relation in canonical (affine, integer) form, that per-dimension guards cover every dimension and "
              "precede the first member store, that a failing fit cannot leave a modified unprotected table, and that the C wrapper maps "
              "throws to non-zero. Both container instantiations. Inside the solver only one memory-safety clause is decided: cached CHOLMOD array "
-             "pointers are not read after a call that may move or free them, no field is read through a released object (SP-1/2). Does not "
+             "pointers are not read after a call that may move or free them, no field is read through a released object (SP-1/2); and every "
+             "self-recursive routine reached from fit decreases a parameter by 1 and returns at the least value a caller can pass (RT-1). Does not "
              "decide index arithmetic inside CHOLMOD/GLAM for valid arguments.",
         note=TRUST + "The hazard table (FIT_OBLIGATIONS) is the trusted specification of which relations are needed.",
         technique="required-guard dominance check with relational normal forms over the instantiated AST/CFG"),
     "C07": dict(
         text="Decides that a failing read leaves an empty destructible object (no-throw window + clear() coverage on read_fits, read_fits_mem, "
              "read_fits_core, file constructor), that every feasible normal exit of the reader is dominated by guards for nknots >= 2*order+2, "
-             "naxes == nknots-order-1, finite and non-decreasing knots over all dimensions/knots, that the reader is entered only with an "
+             "naxes == nknots-order-1, finite and non-decreasing knots over all dimensions/knots, that no pixel transfer is longer than the array "
+             "allocated for it, that the reader is entered only with an "
              "empty table, and that the C readers map failure to non-zero. Does not decide cfitsio's behaviour on corrupted bytes nor "
              "termination/safety of evaluation beyond what C04/C05 decide for well-formed tables.",
         note=TRUST + "cfitsio reports malformed HDUs through its status argument.",
@@ -116,7 +119,8 @@ CLAIMS = {
              "(from the resolved cfitsio calls of write_fits_core) equal the documented layout and cover every lookup of read_fits_core, readOrder "
              "and estimateMemory; every transfer's datatype code matches the buffer element type and the other side's code; BITPIX matches the "
              "element type; reads substitute no special values; the reserved-key filter and skip conditions are shared by all header passes; "
-             "write_key refuses what a card cannot hold (class boundary at 8 characters, 68-character value limit, no unsigned wrap). "
+             "write_key refuses what a card cannot hold (class boundary at 8 characters, 68-character value limit, no unsigned wrap); a name "
+             "formatted with an index moves the element with that index on both sides. "
              "Does not decide bit-exactness of cfitsio conversions, decoding of the shipped reference files, or independent readers/writers.",
         note=TRUST + "cfitsio implements the FITS standard for the calls used; datatype code table (TFLOAT=42, ...) from fitsio.h.",
         technique="schema extraction from resolved library calls, writer/reader/type-code agreement tables"),
@@ -133,7 +137,7 @@ CLAIMS = {
         text="Decides ONE clause only: the vector returned by the solver used by fitting (nnls_normal_block3) is component-wise non-negative "
              "exactly, by sign provenance of every store into it (including through walk_descents/evaluate_descent) - plus memory safety of the "
              "factor-update path in one respect: no cached factor array is read after a call that may move it, no field through a released "
-             "object. KKT optimality, agreement "
+             "object; the constrained set a worker hands back is one job's (its count is reset inside the job loop). KKT optimality, agreement "
              "with the unique minimiser, termination and the three other exported solvers are numerical and are not decided.",
         note=TRUST + "NaN data out of scope (a NaN trial value is not clamped).",
         technique="sign-provenance classification of stores into the solution vector; invalidation typestate for cached CHOLMOD arrays"),
@@ -142,14 +146,14 @@ CLAIMS = {
              "canonical product loop with a wide enough result; convolve updates exactly the convolved dimension's shape to order+n-1, "
              "nknots*n (counter in a perfect loop nest), nknots'-order'-1, recomputes strides, touches no other dimension, and cannot leave a "
              "modified unprotected table; the transfer matrix is filled for every (new, old) pair and applied to every slice by perfect "
-             "counting-loop nests with the blossom arguments in their roles. The convolution integral identity itself is numerical and is not decided.",
+             "counting-loop nests with the blossom arguments in their roles; an out-of-range dimension and an empty kernel are refused before use. The convolution integral identity itself is numerical and is not decided.",
         note=TRUST + "Admitted range: order <= 5, kernels of <= 6 knots ((k+q-1)! <= 10!).",
         technique="unsigned-wrap/totality rule, symbolic post-state (affine forms) of the shape members"),
     "C19": dict(
         text="Decides that estimateMemory's size model has capacity (same element size, same affine count, same loop depth) for every allocation "
              "the reader makes through the allocator, with the auxiliary entries covered under the card-length lemma; that its convolution "
              "adjustments equal the shape convolve produces and precede the terms that use them; that the primary header (dimension, shape, orders, "
-             "auxiliary-key count) is read while the primary HDU is current; that convolve releases each member before allocating its replacement and uses the "
+             "auxiliary-key count) is read while the primary HDU is current and ORDERn lands in order[n] in readOrder as in the reader; that convolve releases each member before allocating its replacement and uses the "
              "allocator for members only; and that owned members only ever receive allocator memory. Does not decide allocator overhead or "
              "files that are not well-formed.",
         note=TRUST + "Card-length lemma: strlen(key)+1+strlen(value)+1 <= 82 for any card cfitsio returns.",
@@ -171,7 +175,8 @@ CLAIMS = {
              "strides into a sparse n-tuple of exactly the non-zero coefficients with the axis lengths as ranges; per dimension the table's own "
              "knots/knot count/order and that dimension's coordinate vector feed bsplinebasis, transposed, applied along the same dimension, for "
              "all dimensions; bsplinebasis fills basis(row,col) = bspline(knots,x[row],col,order) column-major with nknots-order-1 columns and "
-             "its private bspline() is a clone of the library's reference; the C wrapper forwards and hands the result over once. Numerical "
+             "its private bspline() is a clone of the library's reference; the status of slicemultiply is examined; the C wrapper forwards and "
+             "hands the result over once. Numerical "
              "agreement with pointwise evaluation is not decided.",
         note=TRUST + "slicemultiply is assumed to compute the mode-i product (index arithmetic over runtime shapes, not analysed).",
         technique="call-wiring and sibling-clone rules over the instantiated AST (alpha-normalised)"),
